@@ -11,6 +11,11 @@ together position by position (``urlunsplit((scheme, host, path, query,
 fragment))`` or an f-string ``{scheme}//{host}...``) - whose positions hold
 the labels of the request data that can flow there.  The rules are
 statements about those shapes; nothing is keyed on statement text.
+
+R12.8 re-runs the functions that assemble those URLs with a small executor
+over Python constants (``_c12_helpers.ConstExec``): the adapter's bound scheme
+is set to each of http/https/ws/wss, the parameters are what the calls on the
+way from ``match`` pass, everything else is unknown and forks the path.
 """
 
 from __future__ import annotations
@@ -23,7 +28,7 @@ from ..cfg import CFG, Node, cfg_of
 from ..dataflow import Def, ReachingDefs, bound_in_enclosing_comp
 from ..loader import AnalysisError, FuncInfo, const_str, dotted, is_self_attr, norm, walk_no_nested
 from ..report import Ctx
-from ._c12_helpers import matcher_rules
+from ._c12_helpers import UNKNOWN, BudgetExceeded, ConstExec, alias_values_rule, matcher_rules
 
 LEVEL_TEXT = (
     "Static decision of structural clauses of C12 on /repo's current source, by abstract interpretation of MapAdapter.match "
@@ -38,9 +43,19 @@ LEVEL_TEXT = (
     "only for a rule that admits the request method and websocket flag (decided by walking the loop iteration's CFG under "
     "every valuation of the admission facts, so independent of how the conditions are spelled), and a merged-slash redirect "
     "only after the merged path matched; (R12.6) where the matcher turns the missing-slash signal of a walk of path P into a "
-    "redirect, the target is that same P + '/' (same expression, same reaching definitions). Decided on all paths of the "
+    "redirect, the target is that same P + '/' (same expression, same reaching definitions); (R12.7) the values the "
+    "matcher raises with the alias-redirect signal (from which the adapter builds the canonical URL) have received "
+    "everything the values of the match result receive - converter values and the rule's defaults: may-flow into the "
+    "mapping over the CFG, counting only writes that can precede the raise under consistent guards; a necessary condition "
+    "of 'the target denotes the same arguments'; (R12.8) scheme clause of 'points at the scheme the adapter was bound to': "
+    "for an adapter bound to http, https, ws or wss the scheme position of every redirect URL, evaluated by a "
+    "path-sensitive constant executor in the calling context of the redirect (arguments and defaults of the calls leading "
+    "to the assembly, the bound-scheme fallback, the secure/websocket case split, whatever their order and spelling), is a "
+    "scheme of the same security class (https/wss vs http/ws). Decided on all paths of the "
     "analysed functions. NOT decided: that the redirect target matches without "
-    "a further redirect and denotes the same endpoint and arguments (behavioural: depends on the rule set), value-level "
+    "a further redirect and denotes the same endpoint and arguments beyond R12.7 (behavioural: depends on the rule set - "
+    "which rule build() selects for the values, provides_defaults_for/suitable_for), that values are converted correctly "
+    "(to_python/to_url round trip), adapters bound to an empty or other scheme, value-level "
     "correctness of quote()/_urlencode, and redirect_to targets (excluded by the property)."
 )
 TRUSTED = [
@@ -48,11 +63,15 @@ TRUSTED = [
     "urllib.parse.urlunsplit places its five elements in the scheme, netloc, path, query and fragment positions and inserts '/' between a netloc and a path that lacks one",
     "str.lstrip('/') returns a string that does not start with '/'",
     "an f-string replacement field without conversion or format spec inserts a str unchanged",
+    "Python semantics of constants: comparison, `in` on set/tuple/frozenset displays, and/or/not, conditional expressions, str concatenation and the str methods lower/upper/strip/startswith/endswith/removeprefix/removesuffix/partition",
 ]
 ASSUMPTIONS = [
     "Rule.build()'s first element (the domain part) is produced from the rule's declared subdomain/host template, not from the request path",
     "attributes of the adapter other than path_info and query_args (server_name, script_name, subdomain, url_scheme, map) are the data the adapter was bound to",
     "the method, websocket and return_rule arguments of match() are not path data",
+    "the attribute MapAdapter.__init__ assigns from its url_scheme parameter holds the scheme the adapter was bound to and is not rebound afterwards",
+    "the mapping-typed parameter of RequestAliasRedirect.__init__ and the mapping-typed element of StateMachineMatcher.match's return annotation are the matched values",
+    "reading an attribute of the matched rule (rule.defaults, rule.alias) twice within one match() call gives the same value",
 ]
 
 MAP = "routing.map"
@@ -62,6 +81,9 @@ URLUNSPLIT = "urllib.parse.urlunsplit"
 URLJOIN = "urllib.parse.urljoin"
 REDIRECT_EXC = "werkzeug.routing.exceptions.RequestRedirect"
 REQUEST_PARAMS = ("path_info", "query_args")  # public keyword names of MapAdapter.match / __init__
+SCHEME_PARAM = "url_scheme"  # public keyword name of MapAdapter.__init__ / Map.bind
+SCHEMES = ("http", "https", "ws", "wss")  # the schemes an adapter is bound to (property quantifier)
+SECURE = frozenset(["https", "wss"])
 
 Labels = t.FrozenSet[t.Tuple[str, bool]]  # (source, reached the place unchanged)
 
@@ -176,8 +198,9 @@ def names(labs: Labels) -> list[str]:
 
 
 class Frame:
-    def __init__(self, fi: FuncInfo, bind: dict[str, Abs], stack: tuple[str, ...]):
+    def __init__(self, fi: FuncInfo, bind: dict[str, Abs], stack: tuple[str, ...], parent: "Frame | None" = None, call: ast.Call | None = None):
         self.fi = fi
+        self.parent, self.call = parent, call  # the frame and the call expression this frame was entered from
         self.cfg = cfg_of(fi)
         rd = getattr(fi, "_c12_rd", None)
         if rd is None:
@@ -203,6 +226,7 @@ class Interp:
         # adapter attributes that hold request-path data / the script root, found by role: assigned in __init__ from that parameter
         self.request_attrs: set[str] = set()
         self.root_attrs: set[str] = set()
+        self.scheme_attrs: set[str] = set()
         for st in walk_no_nested(init.node):
             if isinstance(st, (ast.Assign, ast.AnnAssign)) and st.value is not None:
                 tgs = st.targets if isinstance(st, ast.Assign) else [st.target]
@@ -213,12 +237,16 @@ class Interp:
                             self.request_attrs.add(tg.attr)
                         if "script_name" in used:
                             self.root_attrs.add(tg.attr)
+                        if SCHEME_PARAM in used:
+                            self.scheme_attrs.add(tg.attr)
         if len(self.request_attrs) < 2 or not self.root_attrs:
             raise AnalysisError(f"MapAdapter.__init__: request attributes {sorted(self.request_attrs)} / script root attributes {sorted(self.root_attrs)} not found")
         if self.repo.try_func("routing.rules.Rule.build") is None:
             raise AnalysisError("Rule.build missing")
         self.url_sites: dict[int, Url] = {}
         self.urljoins: list[tuple[ast.Call, Frame]] = []
+        # (assembly site, frame it was evaluated in, pieces of its scheme position) for R12.8
+        self.scheme_sites: list[tuple[ast.AST, Frame, list[Piece]]] = []
 
     # -- frames ---------------------------------------------------------
     def call_frame(self, callee: FuncInfo, call: ast.Call, fr: Frame) -> Frame:
@@ -251,7 +279,7 @@ class Interp:
             extra = join_all(spill).cooked()
             for name in callee.params:
                 bind[name] = join(bind.get(name, BOTTOM), extra)
-        return Frame(callee, bind, fr.stack)
+        return Frame(callee, bind, fr.stack, fr, call)
 
     def self_callee(self, call: ast.Call, fr: Frame) -> FuncInfo | None:
         f = call.func
@@ -523,6 +551,7 @@ class Interp:
         ok, fact, plabs = self.check_path(self.pieces(path, fr), fr)
         q = self.ev(query, fr)
         qlabs = _keep_raw(q)
+        self.scheme_sites.append((c, fr, [("e", scheme)]))
         return self._register(Url(c, fr.fi, "urlunsplit((scheme, host, path, query, fragment))", self.ev(scheme, fr).flat(), self.ev(netloc, fr).flat(), plabs, ok, fact, qlabs))
 
     def ev_fstring(self, e: ast.JoinedStr, fr: Frame) -> Abs:
@@ -577,6 +606,7 @@ class Interp:
         for p in zones["query"]:
             if p[0] == "e":
                 q |= _keep_raw(self.ev(p[1], fr))
+        self.scheme_sites.append((e, fr, self._fuse(zones["scheme"])))
         return self._register(Url(e, fr.fi, "f-string {scheme}//{host}{root}/{path}", zl("scheme"), zl("netloc"), plabs, ok, fact, frozenset(q)))
 
 
@@ -625,6 +655,8 @@ def run(ctx: Ctx) -> None:
     ctx.rule("R12.4", "MapAdapter.encode_query_args returns a str argument itself; only non-str arguments are encoded")
     ctx.rule("R12.5", "the matcher proposes a slash redirect only for a rule that admits the request method and websocket flag, and a merged-slash redirect only after the merged path matched")
     ctx.rule("R12.6", "a missing-slash signal raised while walking path P is turned into a redirect to that same P + '/' (not to another path value such as the merged-slash variant)")
+    ctx.rule("R12.7", "the values the matcher raises with the alias-redirect signal include everything the values of its match result are made from (converter values and the rule's defaults), on every path to the raise")
+    ctx.rule("R12.8", "for an adapter bound to http, https, ws or wss, the scheme position of every router-made redirect URL evaluates - on every path, in the calling context of the redirect - to a scheme of the same security class (https/wss for https/wss, http/ws for http/ws)")
 
     ip = Interp(ctx)
     match = repo.func(f"{ADAPTER}.match")
@@ -693,6 +725,7 @@ def run(ctx: Ctx) -> None:
                     ctx.ob("R12.1", f"{fi.qualname}: RequestRedirect constructed outside MapAdapter.match's call tree", False, f"`{norm(c)[:80]}` is not covered by the analysis of match()", fi, c, f"RequestRedirect in {fi.qualname}")
 
     seen_names: dict[str, int] = {}
+    router_sites: set[int] = set()
     for r, fr in router:
         nm = _site_name(r)
         seen_names[nm] = seen_names.get(nm, 0) + 1
@@ -702,6 +735,7 @@ def run(ctx: Ctx) -> None:
             raise AnalysisError(f"RequestRedirect raised without a URL argument at {fr.fi.loc(r)}")
         v = ip.ev(arg, fr)
         urls = list(v.urls)
+        router_sites |= {id(u.site) for u in urls}
         assembled = bool(urls) and not v.plain
         what = "; ".join(u.desc() for u in urls) or "no positional assembly"
         stray = f"; also a value that is not an assembled URL ({', '.join(v.notes) or 'labels ' + str(names(v.flat()))})" if v.plain else ""
@@ -742,8 +776,102 @@ def run(ctx: Ctx) -> None:
     _matcher_path(ctx, ip, top)
     # ---------------- R12.4 ----------------------------------------------------
     _encode_query_args(ctx, ip)
-    # ---------------- R12.5 / R12.6 (wzsa/rules/_c12_helpers.py) ------------------
+    # ---------------- R12.5 / R12.6 / R12.7 (wzsa/rules/_c12_helpers.py) -----------
     matcher_rules(ctx)
+    alias_values_rule(ctx)
+    # ---------------- R12.8 ----------------------------------------------------
+    _scheme_rule(ctx, ip, router_sites)
+
+
+# ---------------------------------------------------------------------
+# R12.8
+
+
+def _concrete(a: Abs) -> t.Any:
+    """the one Python constant a parameter is bound to in this calling context, if it is one."""
+    if a.consts is not None and len(a.consts) == 1 and not a.flat() and a.tup is None and not a.urls:
+        return next(iter(a.consts))
+    return UNKNOWN
+
+
+def _context_params(ex: ConstExec, fr: Frame) -> dict[str, t.Any]:
+    """constant parameters of a frame: the arguments of the call it was entered from, evaluated by the executor in the
+    caller's own context (so `url_scheme=self.url_scheme` or a constant held in a local count), else what the
+    interpreter knows about them (constants written at the call, constant defaults)."""
+    out = {k: v for k, v in ((k, _concrete(a)) for k, a in fr.bind.items()) if v is not UNKNOWN}
+    if fr.parent is None or fr.call is None:
+        return out
+    a = fr.fi.node.args  # type: ignore[attr-defined]
+    pos = [x.arg for x in a.posonlyargs + a.args]
+    if fr.fi.cls is not None and "staticmethod" not in fr.fi.decorators and pos:
+        pos = pos[1:]
+    if any(isinstance(x, ast.Starred) for x in fr.call.args) or any(k.arg is None for k in fr.call.keywords):
+        return out
+    given = [(pos[i], x) for i, x in enumerate(fr.call.args) if i < len(pos)] + [(k.arg, k.value) for k in fr.call.keywords]
+    try:
+        _, seen = ex.explore(fr.parent.fi, _context_params(ex, fr.parent), [x for _, x in given])
+    except BudgetExceeded:
+        return out
+    for name, x in given:
+        vals = seen[id(x)]
+        if name not in out and len(vals) == 1 and vals[0] is not UNKNOWN:
+            out[name] = vals[0]  # type: ignore[index]
+    return out
+
+
+def _scheme_rule(ctx: Ctx, ip: Interp, router_sites: set[int]) -> None:
+    if not ip.scheme_attrs:
+        raise AnalysisError(f"MapAdapter.__init__ stores its `{SCHEME_PARAM}` parameter in no attribute")
+    by_site: dict[int, dict[str, t.Any]] = {}
+    for site, fr, pieces in ip.scheme_sites:
+        if id(site) not in router_sites:
+            continue
+        ckey = fr.stack + tuple(sorted((k, repr(v)) for k, v in ((k, _concrete(a)) for k, a in fr.bind.items()) if v is not UNKNOWN))
+        ent = by_site.setdefault(id(site), {"site": site, "fi": fr.fi, "ctxs": {}})
+        ent["ctxs"].setdefault(ckey, (fr, pieces))
+    ctx.floor("R12.8", "URL assembly sites of router redirects whose scheme position is evaluated", len(by_site), 1)
+    execs: dict[str, ConstExec] = {}
+    for ent in sorted(by_site.values(), key=lambda x: (x["fi"].fq, getattr(x["site"], "lineno", 0))):
+        fi: FuncInfo = ent["fi"]
+        site = ent["site"]
+        form = "urlunsplit" if isinstance(site, ast.Call) else "f-string"
+        bad: list[str] = []
+        facts: list[str] = []
+        reached = 0
+        for fr, pieces in ent["ctxs"].values():
+            exprs = [p[1] for p in pieces if p[0] == "e"]
+            via = " <- ".join(x.rsplit(".", 1)[-1] for x in reversed(fr.stack[-3:]))
+            row: list[str] = []
+            for s in SCHEMES:
+                ex = execs.setdefault(s, ConstExec(ctx.repo, {a: s for a in ip.scheme_attrs}))
+                params = _context_params(ex, fr)
+                ptxt = ", ".join(f"{k}={v!r}" for k, v in sorted(params.items())) or "no constant arguments"
+                try:
+                    _, seen = ex.explore(fr.fi, params, exprs)
+                except BudgetExceeded:
+                    raise AnalysisError(f"{fi.qualname}: too many paths to evaluate the scheme position of the {form} at {fi.loc(site)}") from None
+                texts: list[t.Any] = [""]
+                for p in pieces:
+                    if p[0] == "c":
+                        texts = [x if x is UNKNOWN else x + p[1] for x in texts]
+                    else:
+                        texts = [UNKNOWN if (x is UNKNOWN or v is UNKNOWN or not (v is None or isinstance(v, str))) else x + (v or "") for x in texts for v in seen[id(p[1])]]
+                if not texts:
+                    continue  # not reached in this context
+                reached += 1
+                if any(x is UNKNOWN for x in texts):
+                    shape = " + ".join(repr(p[1]) if p[0] == "c" else f"`{norm(p[1])}`" for p in pieces)
+                    raise AnalysisError(f"{fi.qualname} ({via}): the scheme position {shape} of the {form} at {fi.loc(site)} does not evaluate to constants for an adapter bound to {s!r}")
+                got = sorted(set(texts))
+                row.append(f"{s} -> {got}")
+                wrong = [x for x in got if (x[:-1] if x.endswith(":") else x) not in SCHEMES or ((x[:-1] if x.endswith(":") else x) in SECURE) != (s in SECURE)]
+                if wrong:
+                    bad.append(f"bound to {s!r} it can be {wrong} ({via}; {ptxt})")
+            facts.append(f"[{via}] " + ", ".join(row))
+        if not reached:
+            raise AnalysisError(f"{fi.qualname}: the {form} at {fi.loc(site)} is reached in no evaluated context")
+        ctx.ob("R12.8", f"{fi.qualname}: scheme position of the {form} stays in the security class of the bound scheme", not bad,
+               ("; ".join(bad) + " | " if bad else "") + "scheme position by bound scheme: " + " ".join(facts), fi, site, f"{fi.qualname} scheme position [{form}]")
 
 
 # ---------------------------------------------------------------------
